@@ -73,6 +73,10 @@ func (e *testEnv) credentials(u idpUser) []credential {
 	out = append(out, credential{kind: "valid", cookie: good, valid: true, user: u})
 	out = append(out, credential{kind: "expired", cookie: e.issueSessionCookie(e.sessionFor(u, o.Cookie.Expire+time.Hour))})
 	out = append(out, credential{kind: "future", cookie: e.issueSessionCookie(e.sessionFor(u, -2*time.Hour))})
+	// ... and just outside the window on either side (a tolerance meant for one edge must not widen the other)
+	out = append(out, credential{kind: "expired-just", cookie: e.issueSessionCookie(e.sessionFor(u, o.Cookie.Expire+2*time.Second))})
+	out = append(out, credential{kind: "expired-minutes", cookie: e.issueSessionCookie(e.sessionFor(u, o.Cookie.Expire+4*time.Minute))})
+	out = append(out, credential{kind: "future-just", cookie: e.issueSessionCookie(e.sessionFor(u, -(5*time.Minute + 3*time.Second)))})
 	if good != "" {
 		// flip one character in the middle of the value
 		i := strings.Index(good, "=") + 20
